@@ -67,6 +67,11 @@ def cases(tier, seed):
                         yield dict(kind="dataarray", nn=nn, ne=ne, order=order, named=named, nx=nx)
             for nx in (0, 2):
                 yield dict(kind="roundtrip", nn=nn, ne=ne, nx=nx)
+            # Datasets not made by make_xarray_grid: coordinates declared first (easting before northing) and variables assigned later, a
+            # DataArray turned into a Dataset, extra coordinates attached afterwards (seed C18-11: Dataset-level dimension order)
+            for build in ("coords_first", "to_dataset", "vars_then_coords"):
+                for nx in (1, 2):
+                    yield dict(kind="dataset_build", nn=nn, ne=ne, build=build, nx=nx)
             for axes in ("f32_e", "int_e", "f32_n", "int_n"):
                 yield dict(kind="roundtrip", nn=nn, ne=ne, nx=0, axes=axes)
             # almost-meshgrids over very elongated regions (1e5 to 1): the shear is far below 1e-5 of the LARGEST coordinate but not of
@@ -163,6 +168,31 @@ def run(case, rec):
             _check_table(rec, tab, dims, north, east, dict(zip(names, data)), dict(zip(xnames, extras)))
         rec.trivial = nn < 2 or ne < 2 or nd == 0
         rec.cls("grid/%s/nd=%d/nx=%d" % (case["form"], nd, nx))
+        return
+    if kind == "dataset_build":
+        dims = ("northing", "easting")
+        d0, d1 = _values(1, nn, ne, "float"), _values(2, nn, ne, "float")
+        extras = {"x%d" % k: _values(7 + k, nn, ne, "float") for k in range(case["nx"])}
+        if case["build"] == "coords_first":
+            ds = xr.Dataset(coords={"easting": east, "northing": north})
+            ds["var0"] = (dims, d0)
+            ds["var1"] = (dims, d1)
+            ds = ds.assign_coords({k: (dims, v) for k, v in extras.items()})
+        elif case["build"] == "to_dataset":
+            da = xr.DataArray(d0, coords={"easting": east, "northing": north}, dims=dims, name="var0")
+            da = da.assign_coords({k: (dims, v) for k, v in extras.items()})
+            ds = da.to_dataset()
+            ds["var1"] = (dims, d1)
+        else:
+            ds = xr.Dataset({"var0": (dims, d0), "var1": (dims, d1)})
+            ds = ds.assign_coords({k: (dims, v) for k, v in extras.items()})
+            ds = ds.assign_coords(easting=east, northing=north)
+        tab = call(rec, vd.grid_to_table, ds)
+        if raised(tab):
+            return rec.check(False, "grid_to_table raised %r" % (tab,))
+        _check_table(rec, tab, dims, north, east, {"var0": d0, "var1": d1}, extras)
+        rec.trivial = nn < 2 or ne < 2
+        rec.cls("dataset_build/%s" % case["build"])
         return
     if kind == "dataarray":
         vals = _values(3, nn, ne, "float", case.get("mem", "C"))
